@@ -568,7 +568,9 @@ class MappedDFTKernel(KernelEvalBase, XCEvalSerializable):
                     res[s][cond[s]] = 0.0
                     dres[s][:, cond[s]] = 0.0
             else:
-                cond = X0T[:, 0].sum(0) < rhocut
+                # X0T[:, 0] holds the spin-scaled densities (nspin * rho_s), so
+                # their mean over the spin axis is the total density
+                cond = X0T[:, 0].mean(0) < rhocut
                 res[..., cond] = 0.0
                 dres[..., cond] = 0.0
         if self.mode == "SEP":
